@@ -55,7 +55,8 @@ def sig_matches(pattern, sig):
         sig = sig[:len(pattern)]
     if len(pattern) != len(sig):
         return False
-    return all(p == '*' or p == s for p, s in zip(pattern, sig))
+    import fnmatch
+    return all(p == s or fnmatch.fnmatchcase(s, p.replace('[', '[[]')) for p, s in zip(pattern, sig))
 
 
 def known_for(known, sig):
